@@ -53,8 +53,9 @@ def gen_case(rng, segs, root=None, kind="random"):
 
 def payload(case, light=False):
     p = case_payload(case["segs"], [], None, [], [], [])
-    d = {"segs": p["segs"], "groups": case["groups"], "root": case["root"], "reorder": case["reorder"],
-         "optimise": case["optimise"], "light": light}
+    notes = case.get("notes") or {}
+    d = {"segs": p["segs"], "groups": [g[:4] + ([notes[g[0]]] if g[0] in notes else []) for g in case["groups"]],
+         "root": case["root"], "reorder": case["reorder"], "optimise": case["optimise"], "light": light}
     if case.get("history"):
         d["history"] = case["history"]
     return d
@@ -114,11 +115,67 @@ def history_cases(ck):
     return out
 
 
+def preexisting_group_cases(ck):
+    """cells that already carry (a) an EMPTY section-tagged group, (b) a non-empty section-tagged group, (c) empty groups
+    with other tags / notes, in several combinations and positions, before sectioning: every reachable segment must end
+    up in exactly one NEW group that is present in morphology.segment_groups, the old groups unchanged"""
+    rng = ck.rng
+    out = []
+    trees = [[list(x) for x in STORED[1][1]], [list(x) for x in STORED[0][1]]]
+    for shape in ("uniform", "bushy"):
+        trees.append(gen_tree(rng, rng.randrange(5, 10), shape=shape, idstyle=rng.choice(["perm", "sparse"]), prox_prob=0.3, doc="shuffle"))
+    for ti, segs in enumerate(trees):
+        ref = reference(segs)
+        sids = [x[0] for x in segs]
+        a = ["to_fill_later", [], [], SECTION]
+        b = ["old_branch", [sids[0], sids[-1]], [], SECTION]
+        c1 = ["empty_plain", [], [], None]
+        c2 = ["empty_soma_tag", [], [], "GO:0043025"]
+        c3 = ["empty_section_with_notes", [], [], SECTION]
+        allg = ["all", list(sids), [], None]
+        combos = [[a], [b], [c1, c2, c3], [allg, a], [a, b, c1, c2, c3, allg], [c3, a, ["second_empty_section", [], [], SECTION]]]
+        for ci, gs in enumerate(combos):
+            root = ref["root"] if (ci + ti) % 3 else rng.choice(sids)
+            out.append({"segs": [list(x) for x in segs], "groups": [list(g) for g in gs], "notes": {"empty_section_with_notes": "kept for later"},
+                        "root": root, "reorder": bool(ci % 2), "optimise": False, "ref": ref,
+                        "kind": "stored:pre-existing-section-groups"})
+    return out
+
+
+def replace_history_cases(ck):
+    """lookups by id, then k Segment OBJECTS in morphology.segments are replaced by fresh objects with the same id and
+    data (proximal-less children of branch points first), then sectioning: the clauses are evaluated on the objects that
+    are in morphology.segments after the call"""
+    rng = ck.rng
+    out = []
+    for t in range(ck.n(4, 10)):
+        segs = gen_tree(rng, rng.randrange(6, 14), shape=rng.choice(["uniform", "binary", "bushy"]),
+                        idstyle=rng.choice(["perm", "sparse", "topo"]), prox_prob=rng.choice([0.0, 0.0, 0.3]), doc="shuffle")
+        ref = reference(segs)
+        by = {x[0]: x for x in segs}
+        cand = [k for p, ks in ref["kids"].items() if len(ks) > 1 for k in ks if by[k][3] is None]
+        others = [x[0] for x in segs if x[0] not in cand]
+        rng.shuffle(cand)
+        ids = cand[:rng.randrange(1, 4)] or [rng.choice(others)]
+        if rng.random() < 0.5:
+            ids.append(rng.choice(others))
+        first = rng.choice([["lookups"], ["query", "get_segment_length"], ["query", "get_ordered_segments_in_groups"], ["all_queries"]])
+        root = ref["root"] if t % 2 == 0 else rng.choice([x[0] for x in segs])
+        c = gen_case(rng, [list(x) for x in segs], root=root, kind="history:lookups+replace-segment-objects")
+        if not c["groups"]:
+            c["groups"] = [["all", [x[0] for x in segs], [], None]]
+        c["optimise"] = False
+        c["history"] = [first, ["replace_segments", [[i, None] for i in ids]]]
+        out.append(c)
+    return out
+
+
 def derive_history_case(ck, case, out):
     """history case -> the case the measured call actually saw (state read back from the object just before it),
     plus the checks that only a history can fail"""
     pre_segs = rows_exact(out["pre_segs"])
-    only_queries = all(st[0] in ("query", "all_queries") for st in case["history"])
+    only_queries = all(st[0] in ("query", "all_queries", "lookups") or (st[0] == "replace_segments" and all(x[1] is None for x in st[1]))
+                       for st in case["history"])
     if only_queries and (jq(pre_segs) != jq([list(x) for x in case["segs"]]) or out["pre_groups"] != case["groups"]):
         ck.witness("C16:history:query-altered-the-cell", "a query method changed the cell's segments or groups",
                    input=payload(case), expected={"segs": jq(case["segs"]), "groups": case["groups"]},
@@ -168,7 +225,9 @@ def gen_cases(ck):
         segs = gen_tree(rng, n, shape=rng.choice(["uniform", "chain", "deep", "bushy"]), idstyle=rng.choice(["perm", "sparse"]),
                         prox_prob=rng.choice([0.2, 0.6]), doc="shuffle")
         cases.append(gen_case(rng, segs, kind="random:big"))
+    cases += preexisting_group_cases(ck)
     cases += history_cases(ck)
+    cases += replace_history_cases(ck)
     return cases
 
 
@@ -200,7 +259,7 @@ def predicate(case, out):
     if "err" in out["call"]:
         return [("raises", "returns normally", out["call"])]
     after = rows_exact(out["segs"])
-    pre = case["groups"]
+    pre = [g[:4] for g in case["groups"]]
     pre_ids = [g[0] for g in pre]
     new = [g for g in out["groups"] if g[0] not in pre_ids]
     old = [g for g in out["groups"] if g[0] in pre_ids]
@@ -378,6 +437,29 @@ def big_inputs(ck):
             ck.witness("C16:caterpillar:" + clause, clause, input={"depth": depth}, expected=jq(exp), observed=jq(obs))
 
 
+def no_hidden_state(ck):
+    """translator tie: the table (method of Cell, attributes of self it writes) regenerated from nml.py; the kernel
+    checks writes_ok on it (C16_no_hidden_state says what that means)"""
+    try:
+        tab = ck.impl("c13_impl.py", {"mode": "self_writes"}, timeout=300)["writes"]
+    except Exception as e:        # noqa: BLE001 - fail closed
+        ck.oblige("translate:self_writes", False, str(e)[-1500:], kind="translate")
+        return
+    ck.oblige("translate:self_writes", True, kind="translate")
+    gen = HEADER + "Definition writes : list (string * list string) := %s.\n" % clist(
+        tab, lambda r: "(%s, %s)" % (coq_str(r[0]), clist(r[1], coq_str)))
+    g = ck.gen_v("Gen_C16_writes.v", gen)
+    ok, outp = ck.coqc(g)
+    ck.oblige("Gen_C16_writes.v:compiles", ok, outp[-1500:], kind="translate")
+    inst = ck.gen_v("Inst_C16_writes.v", HEADER + "From Run Require Import Gen_C16_writes.\n"
+                    "Lemma cell_methods_hold_no_state : writes_ok Gen_C16_writes.writes = true.\nProof. vm_compute. reflexivity. Qed.\n")
+    ok, _ = ck.compile_obligations(inst, kind="instance")
+    ck.extra["methods_in_write_table"] = len(tab)
+    if not ok:
+        bad = [r for r in tab if r[1] and r[0] not in ("__init__", "build", "validate_", "_buildAttributes", "_buildChildren")]
+        ck.extra["methods_writing_self"] = bad
+
+
 # ------------------------------------------------------------------------------------------ run
 def signature(case):
     ref, segs = case["ref"], case["segs"]
@@ -388,7 +470,8 @@ def signature(case):
     if len(shape) > 12:
         shape = hash(shape) % 100003
     return json.dumps([shape, idx[case["root"]], tuple(by[x][3] is not None for x in order[:12]), len(case["groups"]),
-                       case["reorder"], case["optimise"], by[case["root"]][3] is None, case.get("history")], default=str)
+                       case["reorder"], case["optimise"], by[case["root"]][3] is None, case.get("history"),
+                       [g[0] for g in case["groups"]] if case["kind"].startswith("stored:pre") else None], default=str)
 
 
 def run(ck):
@@ -411,6 +494,7 @@ def run(ck):
                       "Python recursion depth is not modelled (fuel): known finding C16:recursion-depth"]
     t0 = time.time()
     ck.gate_static()
+    no_hidden_state(ck)
     big_inputs(ck)
     t1 = time.time()
     cases = gen_cases(ck)
